@@ -132,6 +132,7 @@ def jobs(pid, tier, seed):
     out += [{"kind": "wire", "seed": seed * 1000003 + 900000 + i} for i in range(nw)]
     n = 2500 if tier == "quick" else 50000
     out += [{"kind": "random", "seed": seed * 1000003 + i} for i in range(n)]
+    out += [{"kind": "random", "seed": seed * 1000003 + 5000000 + i, "life": 1} for i in range(n // 2)]
     return out
 
 
@@ -144,7 +145,7 @@ def run_job(pid, job, acc):
         return run_wire_job(job, acc)
     if job["kind"] == "random":
         s = job["seed"]
-        hist = generate(s, **GEN)
+        hist = generate(s, style=("life" if job.get("life") else None), **GEN)
         cfg = cfg_for(s)
         run_hist(acc, hist, cfg, s, "random:%d" % s, nontrivial_keys=KEYS, keep_sample=(len(acc.samples) < 1), pre=pre)
     else:
